@@ -1,4 +1,6 @@
 import QmcProofs.KernelInvarianceMask
+import QmcProofs.KernelInvarianceSweep
+import Mathlib.Tactic.NormNum
 
 /-!
 # One `timestep` of the Ising sampler leaves the SSE weight invariant
@@ -13,8 +15,9 @@ a finite set `S` of configurations that the moves do not leave (`Closed H S`), t
 `↥S` and `Qmc.Dist.Invariant`; `cfgSpace H N L` — all configurations with `N` variables, cutoff `L`
 and operators of `H` — is such a set for every `H, N, L` (`cfgSpace_closed`).
 
-Files: `KernelInvarianceLib` (general kernels), `…Slot` (diagonal update), `…Cluster` (cluster
-family, refresh), `…Space` (`cfgSpace`), `…Mask` (cluster families from flip masks).
+Files: `KernelInvarianceLib` (general kernels), `…Slot` (diagonal update), `…Sweep` (the model's sweep
+visits each slot with `stateAt` of the current configuration), `…Cluster` (cluster family, refresh),
+`…Space` (`cfgSpace`), `…Mask` (cluster families from flip masks).
 Main theorems (namespace `Qmc.Kernel`): `slot_kernel_reversible(_hb)`, `sweep_invariant(_hb)`,
 `cluster_kernel_reversible`, `free_refresh_invariant`, `timestep_invariant(_hb)`,
 `timestep_invariant_with`; general library: `reversible_invariantOn`, `invariant_compList`,
@@ -319,3 +322,226 @@ theorem timestep_invariant_sum (H : Ham) (β : Rat) (hβ : 0 < β) (hw : ∀ b i
   timestep_invariant H β hβ hw fam hH hS L N c'
 
 end Qmc.Kernel
+
+/-! ## non-vacuity: concrete instances of every hypothesis -/
+
+namespace Qmc.Kernel.Example
+open Qmc Qmc.Dist Qmc.Kernel
+
+/-! ### the general library on a four-point space: two commuting weight-preserving involutions
+taken with probabilities 1/3 and 1/4 -/
+
+def f1 : Bool × Bool → Bool × Bool := fun x => (!x.1, x.2)
+def f2 : Bool × Bool → Bool × Bool := fun x => (x.1, !x.2)
+
+example : Reversible (fun _ : Bool × Bool => (3 : Rat)) (lazyK (1 / 3) f1) :=
+  lazyK_reversible _ (fun a => by simp [f1]) (fun _ => rfl)
+
+example : Reversible (fun _ : Bool × Bool => (3 : Rat)) (flipsK [((1 / 3 : Rat), f1), (1 / 4, f2)]) := by
+  refine flipsK_reversible _ ?_ (fun _ _ _ => rfl) ?_
+  · intro x hx a
+    simp only [List.mem_cons, List.not_mem_nil, or_false] at hx
+    rcases hx with rfl | rfl <;> simp [f1, f2]
+  · intro x hx y hy a
+    simp only [List.mem_cons, List.not_mem_nil, or_false] at hx hy
+    rcases hx with rfl | rfl <;> rcases hy with rfl | rfl <;> simp [f1, f2]
+
+/-- detailed balance ⇒ invariance, composition and mixture, on `S = univ` -/
+example : Invariant (fun _ : (Finset.univ : Finset (Bool × Bool)) => (3 : Rat))
+    (comp (restr _ (lazyK (1 / 3) f1)) (restr _ (mix (1 / 5) (lazyK (1 / 4) f2) (lazyK (1 / 3) f1)))) := by
+  have h1 : Invariant (fun _ : (Finset.univ : Finset (Bool × Bool)) => (3 : Rat))
+      (restr _ (lazyK (1 / 3) f1)) :=
+    reversible_invariantOn (π := fun _ => (3 : Rat))
+      (lazyK_reversible _ (fun a => by simp [f1]) (fun _ => rfl))
+      (fun a _ => lazyK_rowSum (f := f1) (1 / 3 : Rat) a)
+  have h2 : Invariant (fun _ : (Finset.univ : Finset (Bool × Bool)) => (3 : Rat))
+      (restr _ (lazyK (1 / 4) f2)) :=
+    reversible_invariantOn (π := fun _ => (3 : Rat))
+      (lazyK_reversible _ (fun a => by simp [f2]) (fun _ => rfl))
+      (fun a _ => lazyK_rowSum (f := f2) (1 / 4 : Rat) a)
+  exact invariant_comp h1 (invariantOn_mix (π := fun _ => (3 : Rat)) _ h2 h1)
+
+/-- `movesK` with a non-constant weight: two states of weights 1 and 2, acceptances 1/2 and 1/4 -/
+example : Reversible (fun b : Bool => if b then (2 : Rat) else 1)
+    (movesK (fun _ : Unit => not) (fun _ b => if b then (1 / 4 : Rat) else 1 / 2)) :=
+  movesK_reversible (fun _ a => by simp) (fun _ a _ => by cases a <;> norm_num)
+
+/-! ### the sampler: two coupled spins and an idle one, Γ = 1/2, h = 1/4, β = 3/2, cutoff 5 -/
+
+/-- `QmcIsingGraph` with one edge `(0,1)`, `J = 1`, three variables -/
+def H : Ham := isingClusterHam [([0, 1], 1)] (1 / 2) (1 / 4) 3
+def fr : SkOp → Bool := isingFrozen 1 3
+
+theorem absR_ge (x : Rat) : -x ≤ absR x ∧ x ≤ absR x := by
+  unfold absR; split <;> constructor <;> linarith
+
+/-- the Ising matrix elements are non-negative for Γ ≥ 0 -/
+theorem isingClusterHam_nonneg (edges : List (List Nat × Rat)) (g hz : Rat) (nvars : Nat) (hg : 0 ≤ g) :
+    ∀ b i, 0 ≤ (isingClusterHam edges g hz nvars).w b i i := by
+  intro b i
+  simp only [isingClusterHam]
+  split
+  · generalize (edges[b]?.map (·.2)).getD 0 = J
+    have := absR_ge J
+    rcases i with _ | ⟨a, _ | ⟨c, _ | ⟨d, t⟩⟩⟩ <;> simp only [twoSiteW, le_refl]
+    simp only [beq_self_eq_true, Bool.and_self, if_true]
+    split <;> linarith [this.1, this.2]
+  · split
+    · exact hg
+    · have := absR_ge hz
+      rcases i with _ | ⟨a, _ | ⟨c, t⟩⟩ <;> simp only [longitudinalW, le_refl]
+      cases a <;> simp <;> linarith [this.1, this.2]
+
+theorem H_nonneg : ∀ b i, 0 ≤ H.w b i i := isingClusterHam_nonneg _ _ _ _ (by norm_num)
+
+/-- the two flippable clusters of the skeleton of C09's example configuration `exB`, as masks:
+`mA` = the move `exB → exA` of C09 (bond operator, the links to both σx on spin 0, spin 1 round the
+boundary), `mB` = the rest of the world line of spin 0 (through `p = 0`) -/
+def mA : Config := mask Qmc.C09.exB Qmc.C09.exA
+def mB : Config :=
+  ⟨[true, false, false],
+   [some ⟨[0], 1, [true], [false], false, true⟩, some ⟨[0, 1], 0, [false, false], [false, false], false, false⟩,
+    some ⟨[0], 1, [false], [true], false, true⟩, none, some ⟨[1], 2, [false], [false], false, true⟩]⟩
+
+instance (o : Op) : Decidable (AllFalse o) := by unfold AllFalse; infer_instance
+instance (o : Op) : Decidable (AllTrue o) := by unfold AllTrue; infer_instance
+instance (o m : Op) : Decidable (FitOp o m) := by unfold FitOp; infer_instance
+instance (s : Slots) : Decidable (TagCanon s) := by unfold TagCanon; infer_instance
+
+theorem idle3 (m : Config) (hl : m.state.length = 3)
+    (h : ∀ v < 3, varHasOp (skeleton m.slots) v = false → m.state.getD v false = false) :
+    ∀ v, varHasOp (skeleton m.slots) v = false → m.state.getD v false = false := by
+  intro v hv
+  rcases Nat.lt_or_ge v 3 with h3 | h3
+  · exact h v h3 hv
+  · rw [List.getD_eq_getElem?_getD, List.getElem?_eq_none (by rw [hl]; exact h3)]; rfl
+
+theorem mA_valid : ValidMask fr mA :=
+  ⟨by decide, by decide, by decide, idle3 mA rfl (by decide)⟩
+
+theorem mB_valid : ValidMask fr mB :=
+  ⟨by decide, by decide, by decide, idle3 mB rfl (by decide)⟩
+
+/-- the decomposition: the two clusters above for the skeleton of `exB`, none elsewhere -/
+def masks (s : Skel) : List Config := if s = skeleton Qmc.C09.exB.slots then [mA, mB] else []
+
+theorem masks_valid : ∀ s, ∀ m ∈ masks s, ValidMask fr m := by
+  intro s m hm
+  unfold masks at hm
+  split at hm
+  · simp only [List.mem_cons, List.not_mem_nil, or_false] at hm
+    rcases hm with rfl | rfl
+    · exact mA_valid
+    · exact mB_valid
+  · simp at hm
+
+/-- the cluster family — only `ValidMask` had to be checked -/
+noncomputable def fam : ClusterFamily fr (cfgSpace H 3 5) := ClusterFamily.ofMasks H 3 5 masks masks_valid
+
+theorem H_sym : ClusterSym H fr (cfgSpace H 3 5) := ising_clusterSym _ _ _ _ 3 5
+
+/-- the space is not empty: C09's `exB` (two σx, a bond operator, a σx on spin 1, an idle spin) is in it -/
+theorem exB_mem : Qmc.C09.exB ∈ cfgSpace H 3 5 := by
+  rw [mem_cfgSpace]
+  refine ⟨rfl, rfl, ?_⟩
+  intro o ho
+  simp only [Qmc.C09.exB, List.mem_cons, Option.some.injEq, reduceCtorEq, List.not_mem_nil, or_false,
+    false_or] at ho
+  rcases ho with rfl | rfl | rfl | rfl <;> exact ⟨by decide, rfl, rfl, rfl, rfl⟩
+
+/-- the first flip of the family really moves it: it is C09's move `exB → exA` -/
+theorem flipA_exB : maskFlip (masks (skeleton Qmc.C09.exB.slots)) mA Qmc.C09.exB = Qmc.C09.exA := by
+  have hfit : TagCanon Qmc.C09.exB.slots ∧
+      ∀ m' ∈ masks (skeleton Qmc.C09.exB.slots), FitsShape m' Qmc.C09.exB := by
+    refine ⟨by decide, ?_⟩
+    intro m' hm'
+    simp only [masks, if_true, List.mem_cons, List.not_mem_nil, or_false] at hm'
+    rcases hm' with rfl | rfl
+    · exact ⟨rfl, by simp only [mA, mask, Qmc.C09.exB, Qmc.C09.exA, maskSlots, PairAll]; decide⟩
+    · exact ⟨rfl, by simp only [mB, Qmc.C09.exB, PairAll]; decide⟩
+  rw [(maskFlip_dom (by simp [masks]) hfit).1]
+  decide
+
+/-- items 2, 3: slot kernels and sweeps, both variants, on the configuration space of `H` -/
+example (p : Nat) : Reversible (configWeight H (3 / 2)) (slotKM H (3 / 2) p) :=
+  slot_kernel_reversible H _ (by norm_num) H_nonneg p
+
+example : Invariant (sseOn H (3 / 2) (cfgSpace H 3 5)) (sweepKM H (3 / 2) (cfgSpace H 3 5) 5) :=
+  sweep_invariant H _ (by norm_num) H_nonneg (cfgSpace_closed H 3 5) 5
+
+/-- the table the code builds for `H` is valid and has one entry per bond; its total is positive
+because the bond operator has weight 2 on anti-aligned spins -/
+theorem H_table : 0 < (makeBondWeights H).sum := by
+  obtain ⟨W, hW, hpos⟩ := Qmc.C02.real_table_total_pos H 0 (by decide) [true, false] rfl
+    (by simp [H, isingClusterHam, twoSiteW, absR]; norm_num)
+  unfold bwTotal at hW
+  split at hW
+  · cases hW
+  · cases hW; exact hpos
+
+example (p : Nat) : Reversible (configWeight H (3 / 2)) (slotKHB H (makeBondWeights H) (3 / 2) p) :=
+  slot_kernel_reversible_hb H _ _ (by norm_num) H_table H_nonneg (makeBondWeights_valid H) p
+
+example : Invariant (sseOn H (3 / 2) (cfgSpace H 3 5))
+    (sweepKHB H (makeBondWeights H) (3 / 2) (cfgSpace H 3 5) 5) :=
+  sweep_invariant_hb H _ _ (by norm_num) H_table H_nonneg (makeBondWeights_valid H)
+    (makeBondWeights_length H) (cfgSpace_closed H 3 5) 5
+
+/-- item 4 -/
+example : Reversible (configWeight H (3 / 2)) (clusterK fam) := cluster_kernel_reversible fam H _ H_sym
+
+/-- item 5 -/
+example : Invariant (sseOn H (3 / 2) (cfgSpace H 3 5)) (restr _ (refreshK 3)) :=
+  free_refresh_invariant H _ 3 (cfgSpace_closed H 3 5)
+
+/-- item 6, both variants, and with an extra invariant step in between -/
+example : Invariant (sseOn H (3 / 2) (cfgSpace H 3 5)) (timestepK H (3 / 2) fam 5 3) :=
+  timestep_invariant H _ (by norm_num) H_nonneg fam H_sym (cfgSpace_closed H 3 5) 5 3
+
+example : Invariant (sseOn H (3 / 2) (cfgSpace H 3 5))
+    (timestepKHB H (makeBondWeights H) (3 / 2) fam 5 3) :=
+  timestep_invariant_hb H _ _ (by norm_num) H_table H_nonneg (makeBondWeights_valid H)
+    (makeBondWeights_length H) fam H_sym (cfgSpace_closed H 3 5) 5 3
+
+example : Invariant (sseOn H (3 / 2) (cfgSpace H 3 5))
+    (timestepWith (sweepKM H (3 / 2) (cfgSpace H 3 5) 5) [restr _ (refreshK 2)] fam 3) :=
+  timestep_invariant_with H _ fam H_sym (cfgSpace_closed H 3 5) 3 _ _
+    (sweep_invariant H _ (by norm_num) H_nonneg (cfgSpace_closed H 3 5) 5)
+    (fun K hK => by
+      simp only [List.mem_cons, List.not_mem_nil, or_false] at hK
+      rw [hK]; exact free_refresh_invariant H _ 2 (cfgSpace_closed H 3 5))
+
+/-- the cluster kernel is not the identity: C09's move `exB → exA` has probability at least 1/4
+(= flip cluster A, do not flip cluster B) -/
+example : (1 / 4 : Rat) ≤ clusterK fam Qmc.C09.exB Qmc.C09.exA := by
+  have hfl : fam.flips (skeleton Qmc.C09.exB.slots) =
+      [maskFlip (masks (skeleton Qmc.C09.exB.slots)) mA,
+       maskFlip (masks (skeleton Qmc.C09.exB.slots)) mB] := by
+    show (masks _).map _ = _
+    simp [masks]
+  have hg : guardFlip (cfgSpace H 3 5) (skeleton Qmc.C09.exB.slots)
+      (maskFlip (masks (skeleton Qmc.C09.exB.slots)) mA) Qmc.C09.exB = Qmc.C09.exA := by
+    unfold guardFlip; rw [if_pos ⟨exB_mem, rfl⟩]; exact flipA_exB
+  unfold clusterK fiberK clusterFlipList
+  simp only [hfl, List.map_cons, List.map_nil]
+  generalize hx2 : ((1 / 2 : Rat), guardFlip (cfgSpace H 3 5) (skeleton Qmc.C09.exB.slots)
+      (maskFlip (masks (skeleton Qmc.C09.exB.slots)) mB)) = x2
+  have hq : ∀ x ∈ [x2], (0 : Rat) ≤ x.1 ∧ x.1 ≤ 1 := by
+    intro x hx
+    simp only [List.mem_cons, List.not_mem_nil, or_false] at hx
+    rw [hx, ← hx2]; constructor <;> norm_num
+  have hq1 : x2.1 = 1 / 2 := by rw [← hx2]
+  have h0 := flipsK_nonneg [x2] hq Qmc.C09.exB Qmc.C09.exA
+  have h1 := flipsK_nonneg ([] : List (Rat × (Config → Config))) (by simp) (x2.2 Qmc.C09.exA) Qmc.C09.exA
+  have h2 : flipsK [x2] Qmc.C09.exA Qmc.C09.exA =
+      (1 - x2.1) * 1 + x2.1 * flipsK [] (x2.2 Qmc.C09.exA) Qmc.C09.exA := by
+    simp only [flipsK, if_true]
+  have h3 : flipsK [((1 / 2 : Rat), guardFlip (cfgSpace H 3 5) (skeleton Qmc.C09.exB.slots)
+      (maskFlip (masks (skeleton Qmc.C09.exB.slots)) mA)), x2] Qmc.C09.exB Qmc.C09.exA =
+      (1 - 1 / 2) * flipsK [x2] Qmc.C09.exB Qmc.C09.exA + 1 / 2 * flipsK [x2] Qmc.C09.exA Qmc.C09.exA := by
+    conv_lhs => rw [flipsK]
+    simp only [hg]
+  rw [h3, h2, hq1]
+  nlinarith [h0, h1]
+
+end Qmc.Kernel.Example
